@@ -13,6 +13,9 @@
  *       read_err=SUFFIX:J:ERRNO  the J-th read() (0-based) on a file whose
  *                                path ends in SUFFIX fails with ERRNO
  *                                (EINTR is transient: that one call only)
+ *       read_eof=SUFFIX:J        the J-th read() on a matching file (and every
+ *                                later one) returns 0: the file was truncated
+ *                                between listing and reading
  *       read_frag=SEED           every read() on files beneath ROOT returns
  *                                between 1 and 97 bytes (seeded per fd)
  *   FAULTSHIM_OUT    file that receives the "what actually fired" counters
@@ -45,8 +48,8 @@ static char cwd[1024];
 static long stdout_budget = -1;      /* -1: unlimited */
 static long stdout_written;
 static int epipe_seen;
-static struct rule open_rules[MAXRULES], opendir_rules[MAXRULES], read_rules[MAXRULES];
-static int n_open, n_opendir, n_read;
+static struct rule open_rules[MAXRULES], opendir_rules[MAXRULES], read_rules[MAXRULES], eof_rules[MAXRULES];
+static int n_open, n_opendir, n_read, n_eof;
 static uint64_t frag_seed;
 static int frag_on;
 static char *fdpath[MAXFD];
@@ -54,7 +57,7 @@ static long fdreads[MAXFD];
 static uint64_t fdrng[MAXFD];
 
 /* counters of what fired */
-static long c_epipe, c_short_write, c_open_err, c_opendir_err, c_read_err, c_read_eintr, c_read_frag, c_opens_after_epipe, c_opens;
+static long c_epipe, c_short_write, c_open_err, c_opendir_err, c_read_err, c_read_eintr, c_read_frag, c_opens_after_epipe, c_opens, c_read_eof;
 
 static ssize_t (*real_write)(int, const void *, size_t);
 static ssize_t (*real_read)(int, void *, size_t);
@@ -91,8 +94,8 @@ static void dump(void) {
     if (!out || !real_open) return;
     char buf[1024];
     int n = snprintf(buf, sizeof buf,
-        "epipe=%ld\nshort_write=%ld\nopen_err=%ld\nopendir_err=%ld\nread_err=%ld\nread_eintr=%ld\nread_frag=%ld\nopens=%ld\nopens_after_epipe=%ld\nstdout_written=%ld\n",
-        c_epipe, c_short_write, c_open_err, c_opendir_err, c_read_err, c_read_eintr, c_read_frag, c_opens, c_opens_after_epipe, stdout_written);
+        "epipe=%ld\nshort_write=%ld\nopen_err=%ld\nopendir_err=%ld\nread_err=%ld\nread_eintr=%ld\nread_frag=%ld\nopens=%ld\nopens_after_epipe=%ld\nstdout_written=%ld\nread_eof=%ld\n",
+        c_epipe, c_short_write, c_open_err, c_opendir_err, c_read_err, c_read_eintr, c_read_frag, c_opens, c_opens_after_epipe, stdout_written, c_read_eof);
     int fd = real_open(out, O_WRONLY | O_CREAT | O_TRUNC, 0644);
     if (fd >= 0) { real_write(fd, buf, n); real_close(fd); }
 }
@@ -124,6 +127,7 @@ static void init(void) {
             else if (!strcmp(k, "open_err") && n_open < MAXRULES) parse_rule(&open_rules[n_open++], v, 0);
             else if (!strcmp(k, "opendir_err") && n_opendir < MAXRULES) parse_rule(&opendir_rules[n_opendir++], v, 0);
             else if (!strcmp(k, "read_err") && n_read < MAXRULES) parse_rule(&read_rules[n_read++], v, 1);
+            else if (!strcmp(k, "read_eof") && n_eof < MAXRULES) { char tmp[600]; snprintf(tmp, sizeof tmp, "%s:0", v); parse_rule(&eof_rules[n_eof++], tmp, 1); }
             else if (!strcmp(k, "read_frag")) { frag_on = 1; frag_seed = strtoull(v, NULL, 10); }
         }
         free(copy);
@@ -230,6 +234,10 @@ ssize_t read(int fd, void *buf, size_t n) {
             for (int i = 0; i < n_read; i++)
                 if (read_rules[i].idx == idx && ends_with(p, read_rules[i].suffix)) err = read_rules[i].err;
             if (err == EINTR) c_read_eintr++; else if (err) c_read_err++;
+            int eof = 0;
+            for (int i = 0; i < n_eof; i++)
+                if (idx >= eof_rules[i].idx && ends_with(p, eof_rules[i].suffix)) eof = 1;
+            if (eof && !err) { if (idx == 0 || 1) c_read_eof++; pthread_mutex_unlock(&mu); return 0; }
             if (!err && frag_on && n > 1) {
                 uint64_t x = fdrng[fd];
                 x ^= x << 13; x ^= x >> 7; x ^= x << 17;
